@@ -5,6 +5,7 @@
 #define ARDUINOJSON_ENABLE_ARDUINO_STREAM 1
 #define ARDUINOJSON_ENABLE_ARDUINO_PRINT 1
 #include "common.hpp"
+#include <functional>
 #include "typed_obs.hpp"
 
 struct CustomWriter {
@@ -89,6 +90,43 @@ static std::string handle(const std::vector<std::string>& a) {
       if (std::string(as.c_str(), as.length()) != s1 || n5 != n1) res += " ARDUINOSTRING-DIFFERS";
     }
     return res;
+  }
+  // CPB <b> <hex JSON text> : copy a value inside one document when exactly b more slots can be had (every allocator call fails
+  // from then on): prints the copy's result, what the destination holds, and how many slots are still free afterwards
+  if (a[0] == "CPB" && a.size() == 3) {
+    size_t b = std::stoul(a[1]);
+    std::string text = unhex(a[2]);
+    SpyAllocator spy;
+    std::string out;
+    {
+      JsonDocument doc(&spy);
+      if (deserializeJson(doc["src"], text.data(), text.size(), DeserializationOption::NestingLimit(50))) return "bad-src";
+      doc["dst"] = nullptr;
+      JsonArray fill = doc["fill"].to<JsonArray>();
+      // slots in use: 2 per member of the root (src, dst, fill) + those of the source value (1 per element, 2 per member);
+      // nothing was released so far, so the free slots are what is left of the pools (POOL_CAPACITY slots each)
+      std::function<size_t(JsonVariantConst)> slotsOf = [&](JsonVariantConst v) -> size_t {
+        size_t n = 0;
+        if (v.is<JsonArrayConst>()) for (JsonVariantConst e : v.as<JsonArrayConst>()) n += 1 + slotsOf(e);
+        else if (v.is<JsonObjectConst>()) for (JsonPairConst kv : v.as<JsonObjectConst>()) n += 2 + slotsOf(kv.value());
+        return n;
+      };
+      size_t used = 6 + slotsOf(doc["src"]);
+      size_t C = ARDUINOJSON_POOL_CAPACITY;
+      size_t F = (used + C - 1) / C * C - used;
+      if (b > F) return "budget-too-large " + std::to_string(F);
+      for (size_t i = 0; i < F - b; i++) if (!fill.add(0)) return "setup-failed";
+      if (doc.overflowed()) return "setup-overflowed";
+      spy.fail_from = (long)spy.calls;                    // from here on no further pool (and no string) can be allocated
+      bool ok = doc["dst"].set(doc["src"]);
+      out = std::string(ok ? "true " : "false ") + dump(doc["dst"]);
+      size_t R = 0;
+      while (fill.add(0)) R++;
+      out += " " + std::to_string(R);
+      if (!ok && !doc.overflowed()) out += " NOT-FLAGGED";
+    }
+    if (!spy.live.empty() || spy.misuse) out += " LEAK-OR-MISUSE";
+    return out;
   }
   // BIG <shape> <n> : a collection with n children built in linear time (maps through deserializeMsgPack, which does
   // not search for duplicate keys), serialized in both formats; prints for each: first 8 bytes, length, FNV-1a 64
